@@ -117,7 +117,8 @@ def encOp (W S : Nat) (st : St) (e : Encoder) (seg : List String) : Option (St Ã
       match encodeCP (cfgOf W S b p) e cum pr with
       | .ok e' =>
         some ({ st with mode := .enc e',
-                        hist := st.hist.map (fun (pre, l) => (pre, (p, cum, pr) :: l)) },
+                        hist := if cum + pr > 2^p then none else
+                          st.hist.map (fun (pre, l) => (pre, (p, cum, pr) :: l)) },
               "ok", false)
       | .error .impossible => some (st, "impossible", false)
       | .error (.fault f) => some (st, faultStr f, true)
